@@ -43,10 +43,9 @@ func ValidateResponse(ctx context.Context, input *ResponseValidationInput) error
 	}
 
 	// Find input for the current status
+	// (an operation that documents no response at all documents no status: the lookups below are
+	// nil-safe and the undocumented-status rule decides)
 	responses := route.Operation.Responses
-	if responses.Len() == 0 {
-		return nil
-	}
 	responseRef := responses.Status(status) // Response
 	if responseRef == nil {
 		responseRef = responses.Default() // Default input
